@@ -40,6 +40,10 @@ fn eval(e: &Expression, s: &Sigma) -> Result<(usize, u64), Fault> {
         Expression::Add(l, r) => { let (w, a, b) = bin(l, r)?; Ok((w, a.wrapping_add(b) & mask(w))) }
         Expression::Sub(l, r) => { let (w, a, b) = bin(l, r)?; Ok((w, a.wrapping_sub(b) & mask(w))) }
         Expression::Divu(l, r) => { let (w, a, b) = bin(l, r)?; if b == 0 { Err(Fault::DivZero) } else { Ok((w, a / b)) } }
+        Expression::Xor(l, r) => { let (w, a, b) = bin(l, r)?; Ok((w, a ^ b)) }
+        Expression::And(l, r) => { let (w, a, b) = bin(l, r)?; Ok((w, a & b)) }
+        Expression::Or(l, r) => { let (w, a, b) = bin(l, r)?; Ok((w, a | b)) }
+        Expression::Mul(l, r) => { let (w, a, b) = bin(l, r)?; Ok((w, a.wrapping_mul(b) & mask(w))) }
         Expression::Cmpeq(l, r) => { let (_, a, b) = bin(l, r)?; Ok((1, (a == b) as u64)) }
         Expression::Cmpltu(l, r) => { let (_, a, b) = bin(l, r)?; Ok((1, (a < b) as u64)) }
         Expression::Zext(b, x) => { let (w, v) = eval(x, s)?; if *b <= w { Err(Fault::Sort) } else { Ok((*b, v)) } }
@@ -122,7 +126,7 @@ fn fault_matches(e: &falcon::Error, f: &Fault) -> bool {
     }
 }
 
-const NAMES: [(&str, usize); 8] = [("x", 8), ("y", 16), ("z", 32), ("w", 16), ("c", 1), ("d", 8), ("a", 32), ("zz", 8)];
+const NAMES: [(&str, usize); 11] = [("x", 8), ("y", 16), ("z", 32), ("w", 16), ("c", 1), ("d", 8), ("a", 32), ("zz", 8), ("temp_0x0", 8), ("v", 8), ("u", 8)];
 const WINDOW: std::ops::Range<u64> = 0x0c..0x2a;
 
 fn state_diff(st: &State, s: &Sigma) -> Option<String> {
@@ -173,6 +177,13 @@ fn main() {
         ("z=[a-2]", Operation::load(scalar("z", 32), Expression::sub(sc("a", 32), expr_const(2, 32)).unwrap())),
         ("br 0x2000", Operation::branch(expr_const(0x2000, 32))),
         ("br 0x7000", Operation::branch(expr_const(0x7000, 32))),
+        // a scalar with a lifter-temporary name: it must survive a Branch like any other scalar
+        ("temp_0x0=7", Operation::assign(scalar("temp_0x0", 8), k8(7))),
+        // equal operands: the value is 0 only if the operand HAS a value (u is undefined in some initial states, d may be 0)
+        ("v=u^u", Operation::assign(scalar("v", 8), Expression::xor(sc("u", 8), sc("u", 8)).unwrap())),
+        ("v=(10/d)^(10/d)", Operation::assign(scalar("v", 8), Expression::xor(Expression::divu(k8(10), sc("d", 8)).unwrap(), Expression::divu(k8(10), sc("d", 8)).unwrap()).unwrap())),
+        ("v=u&0", Operation::assign(scalar("v", 8), Expression::and(sc("u", 8), k8(0)).unwrap())),
+        ("v=u*0", Operation::assign(scalar("v", 8), Expression::mul(sc("u", 8), k8(0)).unwrap())),
         ("nop", Operation::nop()),
         ("intrinsic", Operation::intrinsic(Intrinsic::new("sys", "syscall", vec![], None, None, vec![0x0f, 0x05]))),
     ];
